@@ -8,6 +8,7 @@ def handle (j : Json) : Json :=
   | some "parse" => Ops.parseOp j
   | some "eval" => Ops.evalOp j
   | some "scopeget" => Ops.scopegetOp j
+  | some "render" => Ops.renderOp j
   | some "ping" => Json.mkObj [("pong", true)]
   | _ => Json.mkObj [("bad", "unknown op")]
 
